@@ -219,8 +219,7 @@ def r4(ctx):
 @rule("C16", "R5", "FLOW", "Theta_k and S_k in the BIC come from one state: the one the last round fitted and relabelled")
 def r5(ctx):
     from . import c09
-    ctx.sub(c09.r4, only=(r"result-state:\w+@bayesian", "result-field:bayesian"))   # the state read by the BIC is the last relabel's
-    ctx.sub(c09.r1, only=("phase-site:", "phase-loop:"))   # no phase (statistics refresh included) runs outside the round loop
+    c09.lifecycle(ctx, {"fit-pairs"})   # no statistics refresh between the last fit and the BIC (inside or after the loop)
     from . import c14, c20
     ctx.sub(c14.r2, only=("producer:", "consumer:"))   # MRF k is the optimiser's result for cluster k's covariance (ordered gather)
     ctx.sub(c20.r2, only=("get:",))   # a failed task is never papered over by keeping the previous MRF
